@@ -6,6 +6,7 @@ git -C /repo diff --quiet || { echo "/repo not clean"; exit 2; }
 git -C /repo apply "$P" || { echo "apply failed: $P"; exit 2; }
 for id in "$@"; do
   out=$(./check $id 2>&1); rc=$?
-  echo "[$P] $id rc=$rc :: $(echo "$out" | grep -cE '^VIOLATION') violations; $(echo "$out" | grep -E '^(UNDECIDED|CHECKER-ERROR)' | head -2 | tr '\n' ' ') $(echo "$out" | tail -1)"
+  viol=$(echo "$out" | grep -E '^VIOLATION' | sed -E 's/.*replay=\/verif\/replay\/[A-Z0-9]+-//; s/\.json//' | tr '\n' ',' )
+  echo "[$P] $id rc=$rc :: $(echo "$out" | grep -cE '^VIOLATION') violations {$viol} $(echo "$out" | grep -E '^(UNDECIDED|CHECKER-ERROR)' | head -2 | cut -c1-160 | tr '\n' ' ') $(echo "$out" | tail -1)"
 done
 git -C /repo checkout -- .
